@@ -91,7 +91,7 @@ pub fn err_class(msg: &str) -> String {
 pub fn deviation(spec: &SysSpec) -> String {
     let name = spec.name.split('-').next().unwrap_or("").to_string();
     let Some(sk) = skeletons().into_iter().find(|k| k.name == name) else {
-        return "custom".into();
+        return format!("custom:{}", spec.name);
     };
     let base = &sk.base;
     let mut d = vec![];
